@@ -108,6 +108,24 @@ Proof.
 Qed.
 Print Assumptions C12_total_core_setters.
 
+(* FULL STATEMENT (C12_no_panic of DESIGN section 5, NOT proved and false on the pinned tree):
+     forall T, build T <> Panic /\ build T <> Diverge        (T: any file tree; build = krusty.Run)
+     forall b, read b  <> Panic /\ read b  <> Diverge        (b: any byte stream; read = the YAML readers)
+   What is missing: a model of the build pipeline and of go-yaml. What does hold, with no hypothesis
+   left: the field-spec filter with kustomize's own setters, over any field-spec list, document and
+   path, and Lookup / LookupCreate on any path without a "-" part, neither panic nor diverge. *)
+Theorem C12_no_panic_partial :
+  (forall nonstr ck ct name v keep create path obj,
+      let r := fs_filter ck ct (set_field nonstr name v keep) create path obj in r <> Panic /\ r <> Diverge) /\
+  (forall ck ct v create path obj,
+      let r := fs_filter ck ct (set_scalar v) create path obj in r <> Panic /\ r <> Diverge) /\
+  (forall nonstr ck ct name v keep l obj,
+      let r := fsslice_apply ck ct (set_field nonstr name v keep) l obj in r <> Panic /\ r <> Diverge) /\
+  (forall ps n, lookup ps n <> Diverge /\ (no_last ps = true -> lookup ps n <> Panic)) /\
+  (forall leaf ps n, lookup_create leaf ps n <> Diverge /\ (no_last ps = true -> lookup_create leaf ps n <> Panic)).
+Proof. exact core_total_summary. Qed.
+Print Assumptions C12_no_panic_partial.
+
 (* ---- the full statement is false for the model (and for the code): F7c ------------------------ *)
 
 (* FULL STATEMENT (not provable):  forall ps n, lookup ps n <> Panic.
